@@ -337,7 +337,17 @@ def _model(params):
         return SymMat(m)
 
     PI = z3.Real("pi")
-    np_ns = NS(mean=Stub("mean", mean), dot=Stub("dot", dot), pi=S.SymReal(PI),
+
+    def isclose(interp, st, args, kw, node):
+        # numpy.isclose(a, b) for finite scalars with the default tolerances: |a - b| <= atol + rtol*|b|
+        if len(args) != 2 or (set(kw) - {"rtol", "atol"}) or any(not isinstance(v, (int, float)) for v in kw.values()):
+            raise pyvc.PyvcUnsupported("np.isclose call shape")
+        a_, b_ = S._num(args[0]), S._num(args[1])
+        rtol, atol = kw.get("rtol", 1e-5), kw.get("atol", 1e-8)
+        ab = lambda t: z3.If(t >= 0, t, -t)
+        return S.SymBool(ab(a_ - b_) <= z3.RealVal(repr(atol)) + z3.RealVal(repr(rtol)) * ab(b_))
+
+    np_ns = NS(mean=Stub("mean", mean), dot=Stub("dot", dot), pi=S.SymReal(PI), isclose=Stub("isclose", isclose),
                random=NS(uniform=Stub("uniform", uniform), normal=Stub("normal", normal), choice=Stub("choice", choice)))
     return {
         "Chi2Calculator": Stub("Chi2Calculator", chi2calc), "move_mol_atom": Stub("move_mol_atom", move),
@@ -723,13 +733,13 @@ def run_scripted(script, n_steps, sim, energies=(1.0, 2.0)):
     return bad, arity, False
 
 
-def scripted_enumerate(n_steps, sim, depth):
+def scripted_enumerate(n_steps, sim, depth, energies=(1.0, 2.0)):
     """all scripts up to `depth` choices; returns (runs, first failing (script, violations) or None)"""
     runs, first = 0, None
     stack = [[]]
     while stack:
         sc = stack.pop()
-        bad, arity, aborted = run_scripted(sc, n_steps, sim)
+        bad, arity, aborted = run_scripted(sc, n_steps, sim, energies)
         if aborted:
             if len(sc) < depth:
                 k = arity[len(sc)]
@@ -758,7 +768,24 @@ def task_scripted(tier, seed):
             else:
                 out.append(ob(oid, "discharged", kind="bounded", engine="smallscope", backend="runtime-contract", evaluations=runs,
                               sample={"n_steps": n_steps, "sim": list(sim), "choice_depth": depth, "complete_runs": runs}))
+    # near ties: a measure lower by one part in 1e7 IS a new lowest measure (and one higher by as little is worse) -- three energy levels
+    depth3 = 7 if tier == "quick" else 9
+    for sim in ((0,), (0, 1, 2)):
+        for n_steps in (1, 2):
+            runs, first = scripted_enumerate(n_steps, sim, depth3, NEAR_TIE_ENERGIES)
+            oid = f"{tag}/near-tie-measures/sim{''.join(map(str, sim))}/n_steps{n_steps}"
+            if first:
+                sc, bad = first
+                out.append(ob(oid, "refuted", kind="bounded", engine="smallscope", backend="runtime-contract", evaluations=runs,
+                              reason="; ".join(bad[:3]), cex={"fn": "scripted", "script": sc, "n_steps": n_steps, "sim": list(sim),
+                                                               "energies": list(NEAR_TIE_ENERGIES), "signature": "near-tie:" + bad[0][:50]}))
+            else:
+                out.append(ob(oid, "discharged", kind="bounded", engine="smallscope", backend="runtime-contract", evaluations=runs,
+                              sample={"n_steps": n_steps, "sim": list(sim), "choice_depth": depth3, "complete_runs": runs, "energies": list(NEAR_TIE_ENERGIES)}))
     return out
+
+
+NEAR_TIE_ENERGIES = (1.0, 1.0 - 1e-7, 2.0)
 
 
 def _twin_cases(tier, seed):
@@ -880,7 +907,7 @@ def replay(prop, cex):
             bad = [f"raises {type(e).__name__}: {e}"]
         return {"reproduced": bool(bad), "observed": bad[:5], "inputs": cex}
     if cex.get("fn") == "scripted":
-        bad, _, aborted = run_scripted(cex["script"], cex["n_steps"], cex["sim"])
+        bad, _, aborted = run_scripted(cex["script"], cex["n_steps"], cex["sim"], tuple(cex.get("energies") or (1.0, 2.0)))
         return {"reproduced": bool(bad), "observed": (bad or [])[:5], "inputs": cex}
     # a failed proof obligation of the loop: search the real loop (scripted callees, then monitored) for a failing run
     for sim in ((0,), (1,), (2,), (0, 1, 2)):
